@@ -1243,6 +1243,11 @@ func runC19bc(res *Result, pool *DrvPool, r *Rng) {
 }
 
 func runC19(prop string, res *Result, pool *DrvPool, r *Rng) {
+	defer func() {
+		rule := res.Rule
+		runC19B(prop, res, pool, r.Fork())
+		res.Rule = rule + " (d) " + res.Rule
+	}()
 	res.Rule = "(a) one-function sources with random receivers/grouped/unnamed/variadic parameters over the supported kinds (typed: arguments are the masked words of drawn values, the oracle renders the VALUE; hostile: arbitrary type texts and argument shapes incl. nested/empty/elided aggregates, `_`, named pointers, wrong arity) through VerifAugmentCall vs model op augment; non-trivial = function found, at least one type and one scalar. " +
 		"(b) generated programs (chains of //go:noinline functions and pointer-receiver methods, random parameter lists and literal values, a few beyond the 10-word print limit) built with -gcflags '-N -l', crashed, their traceback scanned with the sources in place, with and without pointer naming; non-trivial = a parameter was rendered and checked in both scans. " +
 		"(c) the same tracebacks against mutated trees (deleted, empty, truncated, shifted, different arity, unparsable, non-Go, directory, another program, no go.mod); every case counts. Distinct by hash of source+arguments / program / mutated source+traceback."
